@@ -276,3 +276,137 @@ Proof.
   destruct (c_sigver c =? SV_TAPSCRIPT); cbn [map app concat]; rewrite ?app_nil_r; reflexivity.
 Qed.
 End TwoSections.
+
+(* ------------------------------------------------------------------ tapscript sessions: commitment lines, then the committed script *)
+Section TapSections.
+Variable low_s : bytes -> bool.
+Variable tap_tweak_ok : bytes -> bytes -> bytes -> bool -> bool.
+Variable sha256 : bytes -> bytes.
+Variable c : cfg.
+Notation dbg_step := (Session.dbg_step low_s tap_tweak_ok sha256).
+Notation tce_iterate := (Session.tce_iterate tap_tweak_ok sha256).
+
+Definition tap_listing (t0 : tce) (script : bytes) : list str :=
+  number_from 0 (map (fun s => (true, s)) (tce_description t0) ++ map (fun op => (true, op_line op)) (decode_ops script)).
+
+Lemma skipn_add {A} (a b : nat) (l : list A) : skipn a (skipn b l) = skipn (b + a) l.
+Proof. revert l; induction b as [|b IH]; intros l; [reflexivity|]. destruct l; [rewrite !skipn_nil; reflexivity|]. cbn. apply IH. Qed.
+
+(* the i-th "Branch:" line shows the i-th 32-byte node of the control block *)
+Lemma branch_lines_nth : forall n nodes i, (i < n)%nat ->
+  nth_error (branch_lines n nodes) i = Some (TXT_BRANCH ++ hexstr (firstn 32 (skipn (32 * i) nodes))).
+Proof.
+  induction n as [|n IH]; intros nodes i Hi; [lia|]. cbn [branch_lines]. destruct i as [|i].
+  - reflexivity.
+  - cbn [nth_error]. rewrite IH by lia. replace (32 * S i)%nat with (32 + 32 * i)%nat by lia. rewrite <- skipn_add. reflexivity.
+Qed.
+Lemma branch_lines_length : forall n nodes, length (branch_lines n nodes) = n.
+Proof. induction n as [|n IH]; intros nodes; [reflexivity|]. cbn [branch_lines length]. rewrite IH. reflexivity. Qed.
+Lemma tce_description_length : forall t, 0 <= t_path_len t -> Z.of_nat (length (tce_description t)) = t_path_len t + 1.
+Proof. intros t H. unfold tce_description. rewrite app_length, branch_lines_length. cbn [length]. lia. Qed.
+
+(* phase T: the commitment is being checked (t_i steps done); phase S: inside the committed script *)
+Definition inv_tap (t0 : tce) (script : bytes) (v : ienv) : Prop :=
+  e_script (i_e v) = script /\ i_succ v = [] /\ i_p2sh v = false /\
+  ((exists t, i_tce v = Some t /\ t_control t = t_control t0 /\ t_path_len t = t_path_len t0 /\ 0 <= t_i t <= t_path_len t0 /\
+              i_seq v = t_i t /\ i_pc v = script)
+   \/
+   (i_tce v = None /\ exists pre, decode_ops script = pre ++ decode_ops (i_pc v) /\ i_seq v = t_path_len t0 + 1 + Z.of_nat (length pre))).
+
+Lemma inv_tap_init : forall t0 script stack ed, 0 <= t_path_len t0 -> t_i t0 = 0 ->
+  i_p2sh (setup_env c script stack [] ed (Some t0)) = false -> inv_tap t0 script (setup_env c script stack [] ed (Some t0)).
+Proof.
+  intros t0 script stack ed Hp Hi Hp2. split; [reflexivity|]. split; [reflexivity|]. split; [exact Hp2|]. left. exists t0.
+  repeat split; try reflexivity; try lia. cbn. symmetry. exact Hi.
+Qed.
+
+Theorem inv_tap_step : forall t0 script v v', 0 <= t_path_len t0 -> inv_tap t0 script v -> dbg_step c v = (v', SOk) -> inv_tap t0 script v'.
+Proof.
+  intros t0 script v v' Hpl (He & Hs & Hp2 & Hph) H. unfold Session.dbg_step in H.
+  destruct Hph as [(t & Ht & Hc & Hl & Hi & Hq & Hpc)|(Ht & pre & Hd & Hq)].
+  - rewrite Ht in H. unfold Session.tce_iterate in H. rewrite Hl in H.
+    destruct (t_i t <? t_path_len t0) eqn:El.
+    + apply Z.ltb_lt in El. inversion H; subst v'. clear H.
+      split; [exact He|]. split; [exact Hs|]. split; [exact Hp2|]. left.
+      eexists. split; [reflexivity|]. cbn [t_control t_path_len t_i set_seq set_tce i_seq i_pc]. repeat split; try assumption; lia.
+    + apply Z.ltb_ge in El.
+      destruct (tap_tweak_ok (t_program t) (firstn 32 (skipn 1 (t_control t))) (t_k t) (Z.odd (hd 0 (t_control t)))); [|discriminate].
+      inversion H; subst v'. clear H.
+      split; [exact He|]. split; [exact Hs|]. split; [exact Hp2|]. right. split; [reflexivity|].
+      exists []. cbn [app length i_pc i_seq upd set_seq set_tce]. rewrite Hpc. split; [reflexivity|]. lia.
+  - rewrite Ht in H. destruct (i_pc v) as [|b r] eqn:Epc.
+    + rewrite Hp2, Hs in H. cbn [orb] in H. rewrite Bool.andb_false_r in H.
+      destruct (negb (cs_empty (e_cond (i_e v)))); [discriminate|]. inversion H; subst v'. clear H.
+      split; [exact He|]. split; [exact Hs|]. split; [exact Hp2|]. right. split; [exact Ht|]. exists pre. cbn. split; assumption.
+    + destruct (step_script low_s c (i_e v) (b :: r) false) as [[e1 pc1] st] eqn:Es.
+      destruct st; try discriminate. inversion H; subst v'. clear H.
+      destruct (step_script_pc low_s c _ _ _ _ _ Es) as [op Hg].
+      pose proof (step_script_framed low_s c (i_e v) (b :: r) false) as Hf. cbv zeta in Hf. rewrite Es in Hf. cbn [fst snd] in Hf.
+      destruct Hf as [Hfr _]. unfold frs in Hfr. cbn [fst] in Hfr.
+      split; [cbn [i_e set_seq set_hist upd set_pos e_script]; rewrite Hfr; exact He|]. split; [exact Hs|]. split; [exact Hp2|]. right.
+      split; [exact Ht|]. exists (pre ++ [op]). cbn [i_pc i_seq set_seq set_hist upd].
+      split; [rewrite Hd, (decode_ops_cons _ _ _ Hg), <- app_assoc; reflexivity|rewrite app_length; cbn [length]; lia].
+Qed.
+
+(* what the marker shows: during the commitment phase the line of the step about to be taken - the node that step hashes, or the tweak
+   check -, afterwards the next operation of the script, at the end nothing *)
+Theorem tap_marker : forall t0 script v, 0 <= t_path_len t0 -> inv_tap t0 script v ->
+  match i_tce v with
+  | Some t =>
+      if t_i t <? t_path_len t0
+      then marked_line (tap_listing t0 script) (i_seq v) =
+           Some (numbered (i_seq v) (TXT_BRANCH ++ hexstr (firstn 32 (skipn (Z.to_nat (TAPROOT_CONTROL_BASE_SIZE + TAPROOT_CONTROL_NODE_SIZE * t_i t)) (t_control t0)))))
+      else marked_line (tap_listing t0 script) (i_seq v) = Some (numbered (i_seq v) (TXT_TWEAK ++ hexstr (firstn 32 (skipn 1 (t_control t0)))))
+  | None =>
+      match i_pc v with
+      | _ :: _ => forall op pc', get_op (i_pc v) = (Some op, pc') -> marked_line (tap_listing t0 script) (i_seq v) = Some (numbered (i_seq v) (op_line op))
+      | [] => marked_line (tap_listing t0 script) (i_seq v) = None
+      end
+  end.
+Proof.
+  intros t0 script v Hpl (He & Hs & Hp2 & Hph).
+  pose proof (tce_description_length t0 Hpl) as Hlen.
+  destruct Hph as [(t & Ht & Hc & Hl & Hi & Hq & Hpc)|(Ht & pre & Hd & Hq)]; rewrite Ht.
+  - set (texts := map (fun s => (true, s)) (tce_description t0) ++ map (fun op => (true, op_line op)) (decode_ops script)).
+    assert (Hin: 0 <= i_seq v < Z.of_nat (length (number_from 0 texts))).
+    { rewrite number_from_length. unfold texts. rewrite app_length, !map_length. lia. }
+    unfold tap_listing. fold texts. rewrite (marked_is_nth _ _ Hin).
+    destruct (t_i t <? t_path_len t0) eqn:El.
+    + apply Z.ltb_lt in El.
+      assert (Hn: nth_error texts (Z.to_nat (i_seq v)) = Some (true, TXT_BRANCH ++ hexstr (firstn 32 (skipn (32 * Z.to_nat (t_i t)) (skipn 33 (t_control t0)))))).
+      { unfold texts. rewrite nth_error_app1 by (rewrite map_length; lia). rewrite nth_error_map. unfold tce_description.
+        rewrite nth_error_app1 by (rewrite branch_lines_length; lia). rewrite Hq. rewrite branch_lines_nth by lia. reflexivity. }
+      rewrite (number_from_nth texts 0 _ _ _ Hn). rewrite Z.add_0_l, Z2Nat.id by lia.
+      rewrite skipn_add.
+      replace (33 + 32 * Z.to_nat (t_i t))%nat with (Z.to_nat (TAPROOT_CONTROL_BASE_SIZE + TAPROOT_CONTROL_NODE_SIZE * t_i t))
+        by (change TAPROOT_CONTROL_BASE_SIZE with 33; change TAPROOT_CONTROL_NODE_SIZE with 32; lia).
+      reflexivity.
+    + apply Z.ltb_ge in El.
+      assert (Hn: nth_error texts (Z.to_nat (i_seq v)) = Some (true, TXT_TWEAK ++ hexstr (firstn 32 (skipn 1 (t_control t0))))).
+      { unfold texts. rewrite nth_error_app1 by (rewrite map_length; lia). rewrite nth_error_map. unfold tce_description.
+        rewrite nth_error_app2 by (rewrite branch_lines_length; lia). rewrite branch_lines_length.
+        replace (Z.to_nat (i_seq v) - Z.to_nat (t_path_len t0))%nat with 0%nat by lia. reflexivity. }
+      rewrite (number_from_nth texts 0 _ _ _ Hn). rewrite Z.add_0_l, Z2Nat.id by lia. reflexivity.
+  - set (texts := map (fun s => (true, s)) (tce_description t0) ++ map (fun op => (true, op_line op)) (decode_ops script)).
+    destruct (i_pc v) as [|b r] eqn:Epc.
+    + rewrite decode_ops_nil, app_nil_r in Hd. apply marked_none_past_end. unfold tap_listing. fold texts.
+      rewrite number_from_length. unfold texts. rewrite app_length, !map_length, Hd. lia.
+    + intros op pc' Hg. rewrite (decode_ops_cons _ _ _ Hg) in Hd.
+      assert (Hk: Z.to_nat (i_seq v) = (length (tce_description t0) + length pre)%nat) by lia.
+      assert (Hn: nth_error texts (length (tce_description t0) + length pre) = Some (true, op_line op)).
+      { unfold texts. rewrite nth_error_app2 by (rewrite map_length; lia). rewrite map_length.
+        replace (length (tce_description t0) + length pre - length (tce_description t0))%nat with (length pre) by lia.
+        rewrite Hd, map_app. rewrite nth_error_app2 by (rewrite map_length; lia). rewrite map_length, Nat.sub_diag. reflexivity. }
+      unfold tap_listing. fold texts.
+      rewrite marked_is_nth by (rewrite number_from_length; unfold texts; rewrite app_length, !map_length, Hd, app_length; cbn [length]; lia).
+      rewrite Hk, (number_from_nth texts 0 _ _ _ Hn), Z.add_0_l. f_equal. f_equal. lia.
+Qed.
+End TapSections.
+
+Lemma session_listing_tap : forall c t0 script stack ed, (c_sigver c =? SV_TAPSCRIPT) = true ->
+  i_p2sh (setup_env c script stack [] ed (Some t0)) = false ->
+  session_listing c (setup_env c script stack [] ed (Some t0)) = tap_listing t0 script.
+Proof.
+  intros c t0 script stack ed Hsv Hp. unfold session_listing, listing, listing_sections, tap_listing.
+  cbn [i_tce i_succ i_e e_script setup_env]. rewrite Hp, Hsv. cbn [map app concat]. rewrite app_nil_r. reflexivity.
+Qed.
